@@ -119,6 +119,12 @@ var logOnce sync.Once
 func QuietLogs() {
 	logOnce.Do(func() {
 		logrus.SetOutput(io.Discard)
+		if p := os.Getenv("VERIF_DEV_JIVALOG"); p != "" {
+			// dev aid: keep what the in-process jiva code logs
+			if f, err := os.OpenFile(p, os.O_CREATE|os.O_APPEND|os.O_WRONLY, 0644); err == nil {
+				logrus.SetOutput(f)
+			}
+		}
 		logrus.AddHook(WinHook)
 	})
 }
